@@ -11,15 +11,15 @@ Ev == Traces[tid][l]
 More == l <= Len(Traces[tid])
 TrAssign == /\ More /\ Ev.ev = "assign"
             /\ Assign(Ev.v)
-            /\ out' = Ev.out /\ switch' = Ev.sw           \* logged outcome and logged switch state
+            /\ out' = Ev.out /\ Active(switch') = Ev.sw   \* logged outcome and logged (observable) switch state
             /\ l' = l + 1 /\ tid' = tid
 TrCall == /\ More /\ Ev.ev = "call"
           /\ Call([m |-> Ev.m, f |-> Ev.f, c |-> Ev.c])
-          /\ out' = Ev.out /\ switch' = Ev.sw
+          /\ out' = Ev.out /\ Active(switch') = Ev.sw
           /\ l' = l + 1 /\ tid' = tid
 TrOther == /\ More /\ Ev.ev = "other_instance"
            /\ OtherInstance(Ev.v)
-           /\ out' = Ev.out /\ switch' = Ev.sw
+           /\ out' = Ev.out /\ Active(switch') = Ev.sw
            /\ l' = l + 1 /\ tid' = tid
 TrNext == TrAssign \/ TrCall \/ TrOther
 TrSpec == TrInit /\ [][TrNext]_tvars
